@@ -1,4 +1,5 @@
 import NfpmModel.Lemmas.NameLemmas
+import NfpmModel.Generated.G3Types
 /-
   C01  Payload fidelity: every format ships exactly what the contents declare.
 
@@ -385,5 +386,9 @@ example :
         info := some { owner := b!"app", group := b!"wheel", mode := 0o4755, mtime := 1600000000, size := 9 } }).map
       (fun m => (m.name, m.mode, m.uname, m.gname, m.mtime))
     = some (b!"./usr/bin/tool", 0o4755, b!"app", b!"wheel", 1600000000) := by decide
+
+/-- the translator regenerated, on this run and from the working tree, every table this property is tied through
+    (when an extraction fails the reviewed table stands in so that the model still compiles, and this stops checking) -/
+theorem translator_tables_regenerated : Generated.extracted_G3Types = true := by decide
 
 end Nfpm.Props.C01
